@@ -836,3 +836,176 @@ impl Property for C15 {
         cff::run(ctx);
     }
 }
+
+// ================================================================== libFuzzer entry (target c15_roundtrip)
+
+/// Reader of the fuzz tape: every read succeeds (lowest value of the range once the bytes are
+/// used up), ranges are inclusive and are exactly the ranges of the proptest strategies.
+pub(crate) struct Tape<'a>(arbitrary::Unstructured<'a>);
+
+impl<'a> Tape<'a> {
+    pub(crate) fn n(&mut self, lo: u32, hi: u32) -> u32 {
+        self.0.int_in_range(lo..=hi).unwrap_or(lo)
+    }
+    pub(crate) fn i(&mut self, lo: i32, hi: i32) -> i32 {
+        self.0.int_in_range(lo..=hi).unwrap_or(lo)
+    }
+    pub(crate) fn len(&mut self, lo: usize, hi: usize) -> usize {
+        self.n(lo as u32, hi as u32) as usize
+    }
+    pub(crate) fn bool(&mut self) -> bool {
+        self.n(0, 1) == 1
+    }
+    /// true with `k` chances in `of`
+    pub(crate) fn chance(&mut self, k: u32, of: u32) -> bool {
+        self.n(0, of - 1) < k
+    }
+    pub(crate) fn u8(&mut self) -> u8 {
+        self.n(0, 0xFF) as u8
+    }
+    pub(crate) fn u16(&mut self) -> u16 {
+        self.n(0, 0xFFFF) as u16
+    }
+    pub(crate) fn u32(&mut self) -> u32 {
+        self.n(0, u32::MAX)
+    }
+    pub(crate) fn pick<T: Clone>(&mut self, list: &[T]) -> T {
+        list[self.len(0, list.len() - 1)].clone()
+    }
+    /// `bu16()`: any u16, boundary values one byte away
+    pub(crate) fn b16(&mut self) -> u16 {
+        let s = self.u8() as usize;
+        if s < B16.len() {
+            B16[s]
+        } else {
+            self.u16()
+        }
+    }
+    pub(crate) fn bi16(&mut self) -> i16 {
+        self.b16() as i16
+    }
+    /// `bu32()`
+    pub(crate) fn b32(&mut self) -> u32 {
+        const E: [u32; 9] = [0, 1, 0xFFFF, 0x1_0000, 0xFF_FFFF, 0x100_0000, 0x7FFF_FFFF, 0x8000_0000, 0xFFFF_FFFF];
+        let s = self.u8() as usize;
+        if s < E.len() {
+            E[s]
+        } else {
+            self.u32()
+        }
+    }
+    /// `bi64()`
+    pub(crate) fn b64(&mut self) -> i64 {
+        const E: [i64; 8] = [0, 1, -1, i64::MAX, i64::MIN, 0xFFFF_FFFF, 0x1_0000_0000, 3_600_000_000];
+        let s = self.u8() as usize;
+        if s < E.len() {
+            E[s]
+        } else {
+            ((self.u32() as u64) << 32 | self.u32() as u64) as i64
+        }
+    }
+    pub(crate) fn vec<T>(&mut self, lo: usize, hi: usize, mut f: impl FnMut(&mut Self) -> T) -> Vec<T> {
+        let n = self.len(lo, hi);
+        (0..n).map(|_| f(self)).collect()
+    }
+}
+
+/// the generated sections the target reaches, in the order the first input byte selects them
+/// (whole CFF, CFF2 and ItemVariationStore are not decoded)
+pub const FUZZ_SECTIONS: [&str; 28] = [
+    "head", "hhea", "maxp", "hmtx", "cvt", "os2", "scalars",
+    "post", "name-owned", "name-owned-64K", "name-borrowed", "loca", "glyph", "glyph-extreme", "glyf-loca", "cmap-subtable", "cmap-table",
+    "operand-int", "operand-real", "operators", "dict-top", "dict-private", "dict-font", "index", "placeholder", "charset", "encoding", "fdselect",
+];
+
+/// `data[0] % 28` selects the section; `data[1..]` is decoded into that section's model (the domain of
+/// the section's proptest strategy: same ranges, same dependent fix-ups) and given to its check.
+pub fn fuzz_check(data: &[u8], rec: &mut Rec) -> CaseResult {
+    let Some((&k, tape)) = data.split_first() else { return Ok(()) };
+    let k = k as usize % FUZZ_SECTIONS.len();
+    let mut t = Tape(arbitrary::Unstructured::new(tape));
+    let t = &mut t;
+    match k {
+        0 => {
+            let m = HeadM {
+                major: t.b16(),
+                minor: t.b16(),
+                rev: t.b32() as i32,
+                csa: t.b32(),
+                flags: t.b16(),
+                upem: t.b16(),
+                created: t.b64(),
+                modified: t.b64(),
+                bbox: [t.bi16(), t.bi16(), t.bi16(), t.bi16()],
+                mac: t.b16(),
+                ppem: t.b16(),
+                hint: t.bi16(),
+                long: t.bool(),
+                gdf: t.bi16(),
+            };
+            check_head(&m, rec)
+        }
+        1 => {
+            let mut f = [0u16; 10];
+            for v in f.iter_mut() {
+                *v = t.b16();
+            }
+            let m = HheaM { f, nhm: t.b16(), minor: t.b16(), reserved: [t.bi16(), t.bi16(), t.bi16(), t.bi16()] };
+            check_hhea(&m, rec)
+        }
+        2 => {
+            let n = t.b16();
+            let v1 = if t.chance(6, 10) {
+                let mut f = [0u16; 13];
+                for v in f.iter_mut() {
+                    *v = t.b16();
+                }
+                Some(f)
+            } else {
+                None
+            };
+            check_maxp(&MaxpM { n, v1 }, rec)
+        }
+        3 => {
+            let metrics = t.vec(0, 11, |t| (t.b16(), t.bi16()));
+            let lsbs = t.vec(0, 11, |t| t.bi16());
+            check_hmtx(&HmtxM { metrics, lsbs }, rec)
+        }
+        4 => {
+            let v = t.vec(0, 39, |t| t.bi16());
+            check_cvt(&v, rec)
+        }
+        5 => {
+            let kind = t.n(0, 6) as u8;
+            let mut w = [0u16; 15];
+            for v in w.iter_mut() {
+                *v = t.b16();
+            }
+            let mut panose = [0u8; 10];
+            for v in panose.iter_mut() {
+                *v = t.u8();
+            }
+            let m = Os2M {
+                kind,
+                w,
+                panose,
+                ur: [t.b32(), t.b32(), t.b32(), t.b32()],
+                vend: t.b32(),
+                fssel: t.b16(),
+                first: t.b16(),
+                last: t.b16(),
+                v0: [t.b16(), t.b16(), t.b16(), t.b16(), t.b16()],
+                v1: [t.b32(), t.b32()],
+                v2: [t.b16(), t.b16(), t.b16(), t.b16(), t.b16()],
+                v5: [t.b16(), t.b16()],
+            };
+            check_os2(&m, rec)
+        }
+        6 => {
+            let c = (t.b32(), t.b32(), t.b32(), t.b32(), t.bi16(), t.b32() as i32, t.b16(), t.bi16());
+            check_scalars(&c, rec)
+        }
+        7..=16 => tt::fuzz_section(k - 7, t, rec),
+        _ => cff::fuzz_section(k - 17, t, rec),
+    }
+}
